@@ -95,8 +95,25 @@ where
     T: Number,
     usize: Cast<T>,
 {
+    let zero = T::zero();
+    // an empty span, or a step pointing away from `end`, holds no element
+    let empty = if step > zero { b <= a } else { b >= a };
+    if empty {
+        return Linspace {
+            start: a,
+            step,
+            len: 0,
+            index: 0,
+        };
+    }
     let len = b - a;
-    let steps = (len / step).ceil();
+    let mut steps = (len / step).ceil();
+    // integer division truncates (`ceil` is the identity for integers): a span that is
+    // not a multiple of the step still holds one more element before `end`
+    let reached = steps * step;
+    if (step > zero && reached < len) || (step < zero && reached > len) {
+        steps += T::one();
+    }
     Linspace {
         start: a,
         step,
